@@ -55,6 +55,13 @@ Sec(items) == [sk |-> "use", a |-> items[1].a, b |-> items[Len(items)].b, items 
 TwoUses(p, q) == UseToks(p) \o UseToks(q)
 TwoSec(p, q) == <<Sec(<<UseItem(1, p), UseItem(6, q)>>)>>
 
+\* `mod b; // c \n mod a;`  sorted to  `// c \n mod a; mod b;` : at the start of the file the parser gives
+\* the comment to a header item (empty terminal) in front of the section
+ModToks(name) == <<T("TerminalModule", "mod", "ItemModule"), T("TerminalIdentifier", name, "ItemModule"),
+                   [USemi EXCEPT !.p = "ItemModule"]>>
+CmtC == <<Cs("//"), Cw("c", "//")>>
+ModSec(a, items) == [sk |-> "mod", a |-> a, b |-> items[Len(items)].b, items |-> items]
+
 MCCases == <<
   C("keep", "ok", Off, <<Id("f"), LP, Id("a"), RP>>, <<Id("f"), LP, Id("a"), RP>>),
   C("drop_last_comma", "ok", Off,
@@ -146,6 +153,14 @@ MCCases == <<
   [C("merged_dedup_but_dups_allowed", "reject", [Off EXCEPT !.merge = TRUE, !.dup = TRUE],
      TwoUses(<<"m", "a">>, <<"m", "a">>), UseToks(<<"m", "a">>))
      EXCEPT !.isec = TwoSec(<<"m", "a">>, <<"m", "a">>), !.osec = <<Sec(<<UseItem(1, <<"m", "a">>)>>)>>],
+  [C("sorted_comment_becomes_header", "ok", [Off EXCEPT !.sort = TRUE],
+     ModToks("b") \o CmtC \o ModToks("a"), CmtC \o <<Empty>> \o ModToks("a") \o ModToks("b"))
+     EXCEPT !.isec = <<ModSec(1, <<[a |-> 1, b |-> 3], [a |-> 4, b |-> 8]>>)>>,
+            !.osec = <<ModSec(4, <<[a |-> 4, b |-> 6], [a |-> 7, b |-> 9]>>)>>],
+  [C("sorted_comment_lost_at_header", "reject", [Off EXCEPT !.sort = TRUE],
+     ModToks("b") \o CmtC \o ModToks("a"), <<Cs("//"), Empty>> \o ModToks("a") \o ModToks("b"))
+     EXCEPT !.isec = <<ModSec(1, <<[a |-> 1, b |-> 3], [a |-> 4, b |-> 8]>>)>>,
+            !.osec = <<ModSec(3, <<[a |-> 3, b |-> 5], [a |-> 6, b |-> 8]>>)>>],
   [C("not_idempotent", "not_idempotent", Off, <<Id("a")>>, <<Id("a")>>) EXCEPT !.idem = FALSE],
   [C("output_unparsable", "output_unparsable", Off, <<Id("a")>>, <<Id("a")>>) EXCEPT !.parse_ok = FALSE]
 >>
